@@ -119,6 +119,12 @@ func c12Model(r *xrand.Rand, maxTypes, maxDepth int) (*gen.Model, string) {
 			uid++
 			sc.Props = append(sc.Props, &gen.SProp{Key: fmt.Sprintf("t%dnested%d", i, uid), Node: nested})
 		}
+		if r.Chance(1, 4) && i > 0 { // an array whose item is an object with its own allOf
+			nb := pickBases(i, false)
+			item := &gen.SNode{Kind: "object", AllOf: names(nb), Props: []*gen.SProp{prop(fmt.Sprintf("t%da", i))}}
+			uid++
+			sc.Props = append(sc.Props, &gen.SProp{Key: fmt.Sprintf("t%dlist%d", i, uid), Node: &gen.SNode{Kind: "array", Items: []*gen.SNode{item}}})
+		}
 		for _, b := range bases {
 			anc[i][b] = true
 			for x := range anc[b] {
